@@ -173,7 +173,14 @@ func main() {
 				continue
 			}
 			seen[u.Pkg] = true
-			units = append(units, Unit{Name: "regress:" + u.Pkg, Pkg: u.Pkg, Run: "^TestRegress$", Shards: [2]int{1, 1}, Race: u.Race, Env: u.Env})
+			var labNames []string
+			for _, lu := range plan.Units {
+				if lu.Lab != nil {
+					labNames = append(labNames, lu.Name)
+				}
+			}
+			env := append([]string{"VERIF_REGRESS_SKIP_UNITS=" + strings.Join(labNames, ",")}, u.Env...)
+			units = append(units, Unit{Name: "regress:" + u.Pkg, Pkg: u.Pkg, Run: "^TestRegress$", Shards: [2]int{1, 1}, Race: u.Race, Env: env})
 		}
 	}
 	if len(units) == 0 {
